@@ -7,6 +7,7 @@ import JV.Model.Msgpack
 import JV.Model.Ubjson
 import JV.Model.Bson
 import JV.Model.EncoderEvents
+import JV.Model.CborParser
 namespace JV
 namespace Drv
 open Spec.Cbor
@@ -111,9 +112,26 @@ def eventsLine (fmt : String) (toks : List String) : String :=
           if evs.all (fun e => match e with | .int i => decide (i < 9223372036854775808) | _ => true)
           then "ok x" ++ Wire.hexOfBytes (Model.EncoderEvents.feed Model.EncoderEvents.Ubjson.emit evs) else "err"
         else ""
+/-- `d<N>` in an option string (the harness's max_nesting_depth option), default 1024 -/
+def depthOpt (opts : String) : Nat :=
+  match opts.toList with
+  | 'd' :: cs => (String.ofList cs).toNat?.getD Model.CborParser.defaultMaxDepth
+  | _ => Model.CborParser.defaultMaxDepth
 
 /-- bin sdec <fmt> x<bytes> -/
 def binaryLine : List String → String
+  | ["mdec", "cbor", opts, x] =>
+    -- bin mdec cbor <-|dN> x<bytes>  →  the outcome of the cbor_parser model: value | err jsoncons/cbor:<code> | skip (outside the fragment)
+    (match (match x.toList with | 'x' :: cs => Wire.bytesOfHexChars cs | _ => none) with
+     | none => "bad-op"
+     | some s =>
+       match Model.CborParser.decode (depthOpt opts) s with
+       | .ok v _ => (match Model.CborParser.toBV Model.CborParser.renderKey v with
+         | some bv => "ok " ++ " ".intercalate (bvTokens bv)
+         | none => "skip")
+       | .fail (.err e) => "err jsoncons/cbor:" ++ toString e.code
+       | .fail .skip => "skip"
+       | .fail .fuel => "fuel")
   | ["sdec", fmt, x] =>
     match (match x.toList with | 'x' :: cs => Wire.bytesOfHexChars cs | _ => none) with
     | none => "bad-op"
